@@ -10,7 +10,7 @@ Rewrite rules (each application is counted and reported):
   R7 (a..b).contains(&x) -> (a <= x && x < b)                          (integer ranges only)
   R8 `&X[i]` / `X[i]` through a one-line `impl Index` whose body is `&self.0[index]` -> `X.0[i]`  (body text is checked)
   R11 "literal".into() / .to_string() / .to_owned() -> String::new()   (error-message text only)
-  R12 `reader.prim().map(Type::Ctor)` -> `match reader.prim() { Ok(v) => Ok(Type::Ctor(v)), Err(e) => Err(e) }`   (same value)
+  R12 `call(..).map(Type::Ctor)` on a Result -> `match call(..) { Ok(v) => Ok(Type::Ctor(v)), Err(e) => Err(e) }`   (same value)
   R10 `&s[a..b]` on a slice -> vstd::slice::slice_subrange(s, a, b)   (same value; Verus has no range-index syntax)
   R9 `..` rest patterns / field shorthands are kept; `as usize`/`as i32` casts are kept (Verus checks them)
 Anything else unsupported => Undecided (exit 2), never an alarm."""
@@ -92,7 +92,7 @@ def _rewrite(body, rules, counts):
         cnt("R11", n)
     if "R12" in rules:
         # `reader.prim().map(Path::Ctor)` (a datatype constructor used as a function value) -> explicit match
-        body, n = re.subn(r"\b(reader\.\w+\(\))\.map\(\s*([A-Z]\w*(?:::\w+)+)\s*\)",
+        body, n = re.subn(r"\b((?:\w+(?:::\w+)*)(?:\.\w+)?\([^()]*\))\.map\(\s*([A-Z]\w*(?:::\w+)+)\s*\)",
                           r"(match \1 { Ok(v) => Ok(\2(v)), Err(e) => Err(e) })", body)
         cnt("R12", n)
     if "R7" in rules:
